@@ -55,7 +55,9 @@ States == {"notauth", "auth", "selected", "logout"}
 NoArgCmds  == {"NOOP", "CHECK", "LOGOUT", "CAPABILITY", "STARTTLS", "UNAUTHENTICATE",
                "NAMESPACE", "IDLE", "CLOSE", "UNSELECT", "EXPUNGE"}
 AnyState   == {"NOOP", "CHECK", "LOGOUT", "CAPABILITY"}
-NotAuthCmds == {"STARTTLS", "LOGIN", "AUTHENTICATE", "AUTHENTICATE-CANCEL"}
+\* "STARTTLS-PIPED": the STARTTLS line with further commands (LOGIN, SELECT, ...) appended in the same
+\* segment, i.e. plaintext that reaches the server before the TLS handshake (C17 / RFC 3207 section 6)
+NotAuthCmds == {"STARTTLS", "STARTTLS-PIPED", "LOGIN", "AUTHENTICATE", "AUTHENTICATE-CANCEL"}
 AuthCmds   == {"ENABLE", "CREATE", "DELETE", "RENAME", "SUBSCRIBE", "UNSUBSCRIBE", "STATUS",
                "LIST", "LSUB", "NAMESPACE", "IDLE", "SELECT", "EXAMINE", "APPEND",
                "UNAUTHENTICATE"}
@@ -65,7 +67,7 @@ SelCmds    == {"CLOSE", "UNSELECT", "EXPUNGE", "UID EXPUNGE", "FETCH", "UID FETC
 Cmds == AnyState \cup NotAuthCmds \cup AuthCmds \cup SelCmds \cup {"XUNKNOWN"}
 
 \* one representative per command family (used for depth-bounded enumeration)
-FamilyCmds == {"NOOP", "LOGOUT", "STARTTLS", "LOGIN", "AUTHENTICATE-CANCEL", "UNAUTHENTICATE",
+FamilyCmds == {"NOOP", "LOGOUT", "STARTTLS", "STARTTLS-PIPED", "LOGIN", "AUTHENTICATE-CANCEL", "UNAUTHENTICATE",
                "ENABLE", "STATUS", "IDLE", "SELECT", "APPEND", "CLOSE", "UNSELECT", "UID FETCH",
                "MOVE", "XUNKNOWN"}
 
@@ -135,7 +137,7 @@ Init ==
 Alive == ~closed /\ state # "logout"
 
 \* A syntactically broken command: tagged BAD, nothing else happens.
-BadSyntax(c) == Alive /\ c # "XUNKNOWN" /\ Refuse
+BadSyntax(c) == Alive /\ c \notin {"XUNKNOWN", "STARTTLS-PIPED"} /\ Refuse
 
 \* One-call commands: f = 1 makes the backend call fail.
 Simple(c, f) ==
@@ -176,6 +178,14 @@ StartTLS ==
   /\ IF CanStartTLS
      THEN Result(state, TRUE, enabled, closed, <<>>, Out(OK, FALSE, 0, FALSE))
      ELSE Refuse
+
+\* STARTTLS accepted with plaintext already behind it: the server answers OK and hands the transport to
+\* TLS; the plaintext can only be consumed by the handshake, which it breaks - the connection ends, the
+\* commands in it are never executed (no backend call, no answer), the transport was never protected.
+\* (Only modelled where STARTTLS is accepted: a refused STARTTLS is an ordinary command boundary.)
+StartTLSPiped ==
+  /\ Alive /\ CanStartTLS
+  /\ Result("logout", tls, enabled, TRUE, <<>>, Out(OK, FALSE, 0, FALSE))
 
 \* LOGIN u p   and   AUTHENTICATE PLAIN <initial response>
 Login(c, f) ==
@@ -250,6 +260,7 @@ Good(c, f) ==
   \/ f = 0 /\ c = "LOGOUT" /\ Logout
   \/ f = 0 /\ c = "XUNKNOWN" /\ Unknown
   \/ f = 0 /\ c = "STARTTLS" /\ StartTLS
+  \/ f = 0 /\ c = "STARTTLS-PIPED" /\ StartTLSPiped
   \/ Login(c, f)
   \/ f = 0 /\ c = "AUTHENTICATE-CANCEL" /\ AuthCancel
   \/ c = "UNAUTHENTICATE" /\ Unauthenticate(f)
